@@ -167,6 +167,11 @@ def run(prog, R):
                     n += 1
                     ok = ok and show(c[1][0]).endswith("UnaryOp::Minus")
         R.ob("C06.1-unary-op-map", "Neg => Minus", ok and n >= 1, ex.at, f"{n} constructions")
+    import C08
+    n_, bad_ = C08.binary_operand_slots(prog)
+    R.ob("C06.2-binary-operand-order", "BinaryExpr::new_texpr_with_cast keeps (op, left, right) in their slots on every path (operands possibly wrapped in casts)", not bad_ and n_ >= 5, "crates/oq3_semantics/src/asg.rs", f"{n_} constructing paths; {bad_[:3]}")
+    import roles
+    roles.check(prog, R, "C06.2-accessor-roles")
     # ---- C06.3 order preservation
     hits, ctrl = [], 0
     for b in prog.by_crate["oq3_semantics"]:
